@@ -8,7 +8,8 @@ import Cppcms.C19.Gen
   offsets and `ptr_` updates of `eof`, `next_chunk_size`, `read_chunk`, `read_chunk_as_string` come from
   `Gen.lean` (regenerated from `src/archive.cpp` on every run, `size_t` arithmetic mod 2^64); the order
   of the statements is transcribed by hand and tied by the correspondence run.
-* `write_chunk` = `chunk` (length truncated to `uint32_t`, little endian, x86-64).
+* `write_chunk` = `chunk` (length truncated to `uint32_t`; byte order and `sizeof(size_t)` of the target come from the
+  compiler's macros via `Gen`).
 * A type universe `Ty` with values `Val ty`, and generic `save` / `load` following `archive_traits`:
   arithmetic types (`pod n`: `n` raw bytes), `std::string`, `std::vector<POD>` (`vecPod n`), sequence
   containers `std::vector<T>` / `std::list<T>` (`seq`), `std::set` (`set`), `std::map` (`map`), `std::pair`
@@ -46,17 +47,23 @@ def leBytes : Nat → Nat → Bytes
 as the buffer goes) -/
 def slice (b : Bytes) (off len : Nat) : Bytes := (b.drop off).take len
 
-/-- `sizeof(size_t)` on the target (x86-64) -/
-def sizeofSizeT : Nat := 8
+/-- the object representation of an unsigned integer of `k` bytes (`memcpy(&x,…)`), byte order of the target -/
+def numBytes (k n : Nat) : Bytes := if Gen.littleEndian then leBytes k n else (leBytes k n).reverse
+
+/-- the unsigned integer whose object representation is `b` -/
+def numVal (b : Bytes) : Nat := if Gen.littleEndian then leNat b else leNat b.reverse
+
+/-- `sizeof(size_t)` on the target -/
+def sizeofSizeT : Nat := Gen.sizeofSizeT
 
 /-! ## writing -/
 
 /-- `archive::write_chunk(begin,len)`: `uint32_t size = len` (truncating), 4 bytes of it, then the data -/
 def chunk (data : Bytes) : Bytes :=
-  leBytes Gen.wrHdrLen (data.length % 2 ^ Gen.wrSizeBits) ++ data
+  numBytes Gen.wrHdrLen (data.length % 2 ^ Gen.wrSizeBits) ++ data
 
 /-- `archive_traits<size_t>::save(n,a)` -/
-def saveCount (n : Nat) : Bytes := chunk (leBytes sizeofSizeT n)
+def saveCount (n : Nat) : Bytes := chunk (numBytes sizeofSizeT n)
 
 /-! ## the reader -/
 
@@ -100,7 +107,7 @@ def nextChunkSize (b : Bytes) (s : St) : Res Nat :=
   else if Gen.hdrShort s.ptr b.length then .err .hdr s
   else
     let s1 := s.read (Gen.hdrReadOff s.ptr) Gen.hdrReadLen
-    let size := leNat (slice b (Gen.hdrReadOff s.ptr) Gen.hdrReadLen) % 2 ^ Gen.rdSizeBits
+    let size := numVal (slice b (Gen.hdrReadOff s.ptr) Gen.hdrReadLen) % 2 ^ Gen.rdSizeBits
     if Gen.sizeBad s.ptr size b.length then .err .size s1 else .ok size s1
 
 /-- `void archive::read_chunk(void *begin,size_t len)`; result = the bytes copied to `begin` -/
@@ -163,13 +170,24 @@ def ltLex {α : Type} (lt : α → α → Bool) : List α → List α → Bool
 
 def ltByte (a b : UInt8) : Bool := decide (a.toNat < b.toNat)
 
+/-- numeric order of unsigned integer objects -/
+def ltNum (a b : Bytes) : Bool := decide (numVal a < numVal b)
+
+/-- the elements of a POD vector: consecutive groups of `n` bytes (`fuel` ≥ length suffices) -/
+def chunks (n : Nat) : Nat → Bytes → List Bytes
+  | 0, _ => []
+  | fuel + 1, b => if b.isEmpty then [] else b.take n :: chunks n fuel (b.drop n)
+
+/-- `std::vector<unsigned T>` as a list of its elements -/
+def podElems (n : Nat) (b : Bytes) : List Bytes := chunks n b.length b
+
 /-- `operator<`: unsigned integers numerically (little endian), strings / containers lexicographically,
-pairs lexicographically.  For `vecPod n` the comparison is byte-wise, which is `operator<` of
-`std::vector<unsigned char>` only (n = 1); smart pointers compare addresses in C++ and are not keys. -/
+pairs lexicographically, POD vectors lexicographically over their (unsigned) elements; smart pointers compare
+addresses in C++ and are not keys. -/
 def lt : (ty : Ty) → Val ty → Val ty → Bool
-  | .pod _, a, b => decide (leNat a < leNat b)
+  | .pod _, a, b => ltNum a b
   | .str, a, b => ltLex ltByte a b
-  | .vecPod _, a, b => ltLex ltByte a b
+  | .vecPod n, a, b => ltLex ltNum (podElems n a) (podElems n b)
   | .seq t, a, b => ltLex (lt t) a b
   | .set t, a, b => ltLex (lt t) a b
   | .map k v, a, b => ltLex (fun x y => lt k x.1 y.1 || (!lt k y.1 x.1 && lt v x.2 y.2)) a b
@@ -256,7 +274,7 @@ def loadN {α : Type} (ld : St → Res α) : Nat → St → Res (List α)
   | n + 1, s => (ld s).bind fun a s1 => (loadN ld n s1).map (a :: ·)
 
 /-- `archive_traits<size_t>::load(n,a)` -/
-def loadCount (b : Bytes) (s : St) : Res Nat := (readChunk b sizeofSizeT s).map leNat
+def loadCount (b : Bytes) (s : St) : Res Nat := (readChunk b sizeofSizeT s).map numVal
 
 /-- `archive_traits<std::pair<F,S>>::load`, `ar & a & b` of a serializable class -/
 def loadPair {α β : Type} (la : St → Res α) (lb : St → Res β) (s : St) : Res (α × β) :=
@@ -293,7 +311,7 @@ def load (b : Bytes) : (ty : Ty) → St → Res (Val ty)
   | .pair ta tb, s => loadPair (load b ta) (load b tb) s
   | .ptr t, s =>
     (readChunk b Gen.ptrFlagLen s).bind fun flag s1 =>
-      if leNat flag != 0 then .ok none s1 else (load b t s1).map some
+      if numVal flag != 0 then .ok none s1 else (load b t s1).map some
   | .mset t, s => (loadCount b s).bind fun n s1 => (loadN (load b t) n s1).map (msetOfList (lt t))
   | .mmap k v, s =>
     (loadCount b s).bind fun n s1 => (loadN (loadPair (load b k) (load b v)) n s1).map (mmapOfList (lt k))
